@@ -1892,10 +1892,10 @@ func decimal(s string) (x int, ok bool) {
 		if digit > 9 {
 			return 0, false
 		}
-		x = x*10 + int(digit)
-		if x < 0 {
-			return 0, false // underflow
+		if x > (math.MaxInt-int(digit))/10 {
+			return 0, false // overflow
 		}
+		x = x*10 + int(digit)
 	}
 	return x, true
 }
